@@ -42,6 +42,8 @@ PAIRS = [("W_g", "Wla_g_q"), ("W_c", "Wla_c_q"), ("W_N", "Wla_N_q")]
 
 def run(ctx):
     rep = ctx.rep
+    rep.rule("C23.R11", "static solvers evaluate every force at ZERO velocity: the velocity argument they hand to the system is a zero buffer of their own (np.zeros(system.nu)), not the model's initial velocity or any other state", 2)
+    static_velocity_zero(ctx)
     rep.rule("C23.R10", "frame indifference of the applied loads: a load datum given in the I-basis (Force, Moment) or the body basis (B_Force, B_Moment) is contracted with a Jacobian of the same basis, changing basis with A_IB in the right direction (A_IB @ B-vector, I-vector @ A_IB)", 4)
     load_bases(ctx)
     rep.rule("C23.R1", "force families agree between residual and Jacobian", 6)
@@ -179,6 +181,37 @@ def _resolve_ranges(fn, expr, depth=0):
                 out += r
         return out or None
     return None
+
+
+def static_velocity_zero(ctx, rule="C23.R11"):
+    """'returns equilibria': h(t, q, 0) + W la = 0.  Newton and Riks pass `self.u0` as velocity to h, c, h_q, c_q, ...; the returned Solution
+    reports u = 0.  If self.u0 is the system's initial velocity, dampers and gyroscopic terms enter the residual that is driven to zero and
+    the returned points are not static equilibria (and depend on the model's velocity state) - silently, with full success."""
+    rep = ctx.rep
+    rel = "cardillo/solver/statics.py"
+    n = 0
+    for cname in ("Newton", "Riks"):
+        cls = ctx.repo.maybe(rel, cname)
+        if cls is None:
+            continue
+        C = f"{rel}:{cname}"
+        stores = [w for f in cls.body if isinstance(f, ast.FunctionDef) for w in ast.walk(f) if isinstance(w, ast.Assign) and any(norm_src(t) == "self.u0" for t in w.targets)]
+        uses = [w for f in cls.body if isinstance(f, ast.FunctionDef) for w in ast.walk(f) if isinstance(w, ast.Call) and norm_src(w.func).startswith("self.system.")
+                and any(norm_src(a) == "self.u0" for a in w.args)]
+        if not uses:
+            rep.ok(rule, C, "no system evaluation with self.u0 as velocity argument (no verdict)", verdict="unknown", trivial=True)
+            continue
+        for st in stores:
+            n += 1
+            v = st.value
+            zero = isinstance(v, ast.Call) and (dotted(v.func) or "").split(".")[-1] in ("zeros", "zeros_like")
+            if zero:
+                rep.ok(rule, C, f"`{norm_src(st)[:50]}`: {len(uses)} system evaluations at zero velocity")
+            else:
+                rep.bad(rule, C, st, f"`{norm_src(st)[:60]}` is the velocity the solver hands to {len(uses)} system evaluations (h, c, h_q, ...): with non-zero initial velocities of the model the "
+                        "residual contains damper / gyroscopic forces, the converged points are not static equilibria and no warning is raised", f"{rel}:{st.lineno}")
+    if n < 2:
+        rep.ok(rule, rel, f"only {n} definitions of self.u0 found", verdict="unknown", trivial=True)
 
 
 def load_bases(ctx, rule="C23.R10"):
@@ -635,4 +668,9 @@ MUTANTS += [
 NEUTRAL += [
     dict(id="c23-n-r10", canary=True, what="Moment.h written with the explicit transpose A_IB.T @ moment", file='cardillo/forces/moment.py',
          old="        return (self.moment(t) @ self.A_IB(t, q)) @ self.B_J_R(t, q)\n", new="        return (self.A_IB(t, q).T @ self.moment(t)) @ self.B_J_R(t, q)\n"),
+]
+
+MUTANTS += [
+    dict(id="c23-r11-seed", canary=True, what="[seeded by sub-agent] Newton evaluates the system with system.u0 instead of a zero velocity vector", file='cardillo/solver/statics.py',
+         old="        self.u0 = np.zeros(system.nu)  # zero velocities as system is static\n", new="        self.u0 = system.u0\n", expect="C23.R11"),
 ]
